@@ -81,14 +81,14 @@ def handle (line : String) : String :=
   | "attr" :: rest =>
     match two rest with
     | some (m, .str _ s) =>
-      match Value.getAttr H m s with
+      match Value.getAttrH H m s with
       | some r => "some " ++ Wire.showValue r
       | none => "none"
     | _ => "bad-args"
   | "in" :: rest =>
     match two rest with
     | some (c, n) =>
-      match Value.contains H c n with
+      match Value.containsH H c n with
       | some b => "ok " ++ b01 b
       | none => "err container"
     | none => "bad-args"
